@@ -280,6 +280,28 @@ example :
       [(0, 2, [0, 1]), (0, 3, [0, 1]), (0, 4, [0]), (0, 5, [0, 1]), (0, 6, [0, 1]), (0, 7, [0, 1]),
        (1, 2, [1]), (1, 3, [1]), (1, 4, []), (1, 5, [1]), (1, 6, [1]), (1, 7, [1])] := by decide
 
+/-! ## concurrent reports (interleaving model of fix 13e43e7) -/
+
+/-- **Quiescence.** Any number of concurrent reports on one node, any interleaving of their stores and
+notifications, any values: under the fixed protocol (a notification delivers the node's CURRENT flag),
+whenever no report is between its store and its notification the set agrees with the node. -/
+theorem concurrent_reports_agree_at_quiescence (b : Bool) (schedule : List RAct)
+    (hq : (rrun true (RState.init b) schedule).pending = []) :
+    (rrun true (RState.init b) schedule).set = (rrun true (RState.init b) schedule).node := by
+  have := rrun_inv schedule (RState.init b) (by intro h; exact absurd rfl h)
+  cases hs : (rrun true (RState.init b) schedule).set <;> cases hn : (rrun true (RState.init b) schedule).node <;>
+    simp_all
+
+/-- The old protocol (deliver the value captured at the store) is wrong: report 1 revives, report 2
+kills, the notifications arrive in the other order — at quiescence the set lists a dead node. -/
+theorem captured_value_protocol_can_disagree :
+    ∃ schedule : List RAct, (rrun false (RState.init false) schedule).pending = [] ∧
+      (rrun false (RState.init false) schedule).set ≠ (rrun false (RState.init false) schedule).node :=
+  ⟨[.store 1 true, .store 2 false, .deliver 2, .deliver 1], by decide, by decide⟩
+
+example : (rrun true (RState.init false) [.store 1 true, .store 2 false, .deliver 2, .deliver 1]).set = false := by
+  decide
+
 /-! ## kernel connectivity bit -/
 
 /-- One notification of a latency-policy set satisfying the set invariant, for ANY latency value: the
@@ -349,6 +371,45 @@ theorem kernel_callback_guards (closed retired dryrun : Bool) (ob i : Nat) (aliv
 
 example : kernelCallback false false true 2 4 false true = some (12, 0) ∧
     kernelCallback false false true 2 4 false false = none ∧ kernelCallback false true false 2 4 true true = none := by
+  decide
+
+/-! ## the kernel map shared by generations (`KWorld`: one BPF map, one core per generation) -/
+
+/-- A slot of `outbound_connectivity_map` changes in a step only if a group callback of that step really
+wrote it: a wired group whose core is neither retired nor closed, and not a dry-run non-init callback.
+In particular a retired (drained) generation can never clobber its successor's bits. -/
+theorem kernel_map_changed_only_by_live_report (kw : KWorld) (e : Event) (key : Nat)
+    (h : ∀ x ∈ (step kw.w e).2, ¬ ∃ v, LiveWrite { kw with w := (step kw.w e).1 } x key v) :
+    (kstep kw (.base e)).kmap key = kw.kmap key :=
+  applyOuts_unchanged _ _ key h
+
+/-- Wiring a group and retiring / closing a core write nothing. -/
+theorem kernel_map_untouched_by_wiring_and_retirement (kw : KWorld) (g c ob : Nat) (d : Bool) :
+    (kstep kw (.wire g c ob d)).kmap = kw.kmap ∧ (kstep kw (.silence c)).kmap = kw.kmap := ⟨rfl, rfl⟩
+
+/-- **Partial** (step level): after a step, a slot holds the value of the LAST live report to it in that
+step, whichever generation sent earlier ones — so once the old generation is retired the bit is the
+new generation's last report.  Missing for full strength: the statement "= the newest live group's set
+is non-empty" across steps needs the set's ghost `kbit` related to the step's callback list for every
+primitive; that link is carried by the tie (the real map of two generations on shared outbound ids,
+with the real `MarkRetired`, is compared with `kmap` after every event). -/
+theorem kernel_map_is_last_live_report_partial (kw : KWorld) (e : Event) (pre post : List Out) (x : Out)
+    (key v : Nat) (hs : (step kw.w e).2 = pre ++ x :: post)
+    (hx : LiveWrite { kw with w := (step kw.w e).1 } x key v)
+    (hpost : ∀ y ∈ post, ¬ ∃ v', LiveWrite { kw with w := (step kw.w e).1 } y key v') :
+    (kstep kw (.base e)).kmap key = v := by
+  simp only [kstep, hs]
+  exact applyOuts_last pre post x _ key v hx hpost
+
+set_option maxRecDepth 8000 in
+/-- two generations on outbound id 5: the old group (core 0) goes empty and writes 0; after `MarkRetired`
+of core 0 the revival of the old node no longer reaches the map, the new group's report does -/
+example :
+    let h : List KEvent := [.base (.node 0 0), .wire 0 0 5 false, .base (.group 0 5 .minLast 0 [(0, 0)] []),
+      .base (.node 1 0), .wire 1 1 5 false, .base (.group 1 5 .minLast 0 [(1, 0)] []),
+      .base (.forced 0 .t4 []), .silence 0, .base (.tok 0 .u4 []), .base (.probe 0 .t4 (.ok 1) .err [])]
+    (krun KWorld.init (h.take 7)).kmap (kernelKey 5 4) = 0 ∧ (krun KWorld.init h).kmap (kernelKey 5 4) = 0 ∧
+    (krun KWorld.init (h ++ [.base (.forced 1 .t4 []), .base (.probe 1 .t4 (.ok 1) .err [])])).kmap (kernelKey 5 4) = 1 := by
   decide
 
 /-! ## reload -/
